@@ -1001,6 +1001,155 @@ Proof.
   destruct (shut_continuation evs s1 s2 os S1 H H0) as (A1 & A2 & A3 & A4 & A5 & A6); auto; congruence.
 Qed.
 
+(* ---- the fuel of the loops always suffices --------------------------------------------------- *)
+Lemma shutdown_inq r s s' e : shutdown r s = (s', e) -> inq s' = inq s.
+Proof. intros H. apply shutdown_spec in H. tauto. Qed.
+
+Lemma send_error_inq d s s' x : send_error d s = (s', x) -> inq s' = inq s.
+Proof.
+  unfold send_error. intros H.
+  destruct (flush s) as [s1 e1] eqn:F. pose proof (flush_core _ _ _ F) as (_ & I1 & _).
+  destruct e1; [inv H; exact I1|].
+  destruct (send_rec (WAlert 2 d) (set_bufw false s1)) as [s3 e3] eqn:S3.
+  pose proof (send_rec_core _ _ _ _ S3) as (_ & I3 & _). cbn in I3.
+  destruct e3; [inv H; congruence|].
+  destruct (shutdown false s3) as [s4 e4] eqn:S4. apply shutdown_inq in S4. inv H. congruence.
+Qed.
+
+Lemma alert_branch_inq l d s s' x : alert_branch l d s = (s', x) -> inq s' = inq s.
+Proof.
+  unfold alert_branch. intros H.
+  destruct (shutdown (d =? 0) _) as [s2 e] eqn:S. apply shutdown_inq in S. inv H. rewrite S.
+  destruct ((l =? 1) || (d =? 0)); [|reflexivity].
+  destruct (send_rec (WAlert 1 0) s) as [s1 e1] eqn:E. cbn. apply send_rec_core in E. tauto.
+Qed.
+
+(* get_msg never runs out of fuel (it has none), never lengthens the queue, and shortens it
+   whenever it returns a message or a remote alert *)
+Lemma get_msg_q_len c : forall q s s' r, get_msg_q c q s = (s', r) ->
+  r <> Fuel /\ (length (inq s') <= length q)%nat /\
+  match r with
+  | Val _ => (length (inq s') < length q)%nat
+  | Exc (XRemote _) => (length (inq s') < length q)%nat
+  | _ => True
+  end.
+Proof.
+  induction q as [|i q IH]; intros s s' r H; cbn [get_msg_q] in H.
+  - inv H. cbn. unfold no_input. destruct (negb _); [repeat split; auto; discriminate|].
+    destruct (rxe _); repeat split; auto; discriminate.
+  - assert (forall d s1 x, send_error d (set_inq q s) = (s1, x) ->
+            Exc x <> @Fuel item /\ (length (inq s1) <= length (i :: q))%nat /\
+            match x with XRemote _ => (length (inq s1) < length (i :: q))%nat | _ => True end) as SE.
+    { intros d s1 x E. apply send_error_inq in E. cbn in *. rewrite E.
+      split; [discriminate|]. split; [lia|]. destruct x; auto; lia. }
+    assert (forall j s1 r1, get_msg_q c q (set_inq q s) = (s1, r1) ->
+            r1 <> Fuel /\ (length (inq s1) <= length (j :: q))%nat /\
+            match r1 with
+            | Val _ => (length (inq s1) < length (j :: q))%nat
+            | Exc (XRemote _) => (length (inq s1) < length (j :: q))%nat
+            | _ => True
+            end) as REC.
+    { intros j s1 r1 E. apply IH in E. destruct E as (A & B & C). split; [exact A|]. split; [cbn; lia|].
+      destruct r1 as [?|x| |]; auto; [cbn; lia|]. destruct x; auto; cbn; lia. }
+    destruct i as [d|l d|b].
+    + destruct c.
+      * destruct d; [apply REC; exact H|inv H; cbn; repeat split; auto; discriminate].
+      * destruct d; [apply REC; exact H|inv H; cbn; repeat split; auto; discriminate].
+      * destruct (send_error 10 (set_inq q s)) as [s1 x] eqn:E. inv H. apply SE in E. exact E.
+    + assert (forall s1 x, alert_branch l d (set_inq q s) = (s1, x) ->
+              Exc x <> @Fuel item /\ (length (inq s1) <= length (IAlert l d :: q))%nat /\
+              match x with XRemote _ => (length (inq s1) < length (IAlert l d :: q))%nat | _ => True end) as AB.
+      { intros s1 x E. apply alert_branch_inq in E. cbn in *. rewrite E.
+        split; [discriminate|]. split; [lia|]. destruct x; auto; lia. }
+      destruct c.
+      * destruct (alert_branch l d (set_inq q s)) as [s1 x] eqn:E. inv H. exact (AB _ _ eq_refl).
+      * inv H. cbn. repeat split; auto; discriminate.
+      * destruct (alert_branch l d (set_inq q s)) as [s1 x] eqn:E. inv H. exact (AB _ _ eq_refl).
+    + destruct c.
+      * destruct (b && tls13 (set_inq q s)); [inv H; cbn; repeat split; auto; discriminate|].
+        destruct (send_error 10 (set_inq q s)) as [s1 x] eqn:E. inv H. apply SE in E. exact E.
+      * destruct (send_error 10 (set_inq q s)) as [s1 x] eqn:E. inv H. apply SE in E. exact E.
+      * inv H. cbn. repeat split; auto; discriminate.
+Qed.
+
+Definition measure (s : st) : nat := (length (inq s) + (if closed s then 0 else 1))%nat.
+
+Lemma read_loop_no_fuel mn : forall f t s s' r, (measure s < f)%nat -> read_loop f t mn s = (s', r) -> r <> Fuel.
+Proof.
+  induction f as [|f IH]; intros t s s' r M H; [lia|].
+  rewrite read_loop_S in H.
+  destruct (((zlen (rbuf s) <? mn) || (is_nil (rbuf s) && t)) && negb (closed s)) eqn:CND; [|inv H; discriminate].
+  apply andb_true_iff in CND. destruct CND as (_ & CL). apply negb_true_iff in CL.
+  unfold measure in M. rewrite CL in M.
+  destruct (get_msg CRead s) as [s1 r1] eqn:G. unfold get_msg in G.
+  pose proof (get_msg_q_len _ _ _ _ _ G) as (NF & LE & ST).
+  assert (forall s2, inq s2 = inq s1 -> (length (inq s1) < length (inq s))%nat -> (measure s2 < f)%nat) as K.
+  { intros s2 E L. unfold measure. rewrite E. destruct (closed s2); lia. }
+  destruct r1 as [i|x| |]; [ | |inv H; discriminate|congruence].
+  - destruct i; eapply IH; try exact H; apply K; auto.
+  - destruct x; try (inv H; discriminate).
+    + destruct (ign s1); [|inv H; discriminate].
+      destruct (shutdown true s1) as [s2 e] eqn:S. pose proof (shutdown_spec _ _ _ _ S) as (C2 & _ & _ & I2 & _).
+      destruct e; [inv H; discriminate|]. eapply IH; try exact H. unfold measure. rewrite C2, I2. lia.
+    + destruct (desc =? 0); [|inv H; discriminate]. eapply IH; try exact H. apply K; auto.
+Qed.
+
+Lemma close_wait_no_fuel : forall f s s' r, (length (inq s) < f)%nat -> close_wait f s = (s', r) -> r <> Fuel.
+Proof.
+  induction f as [|f IH]; intros s s' r M H; [lia|]. cbn [close_wait] in H.
+  destruct (get_msg CWait s) as [s1 r1] eqn:G. unfold get_msg in G.
+  pose proof (get_msg_q_len _ _ _ _ _ G) as (NF & LE & ST).
+  destruct r1 as [i|x| |]; try (inv H; auto; discriminate).
+  destruct i; try (eapply IH; [|exact H]; lia). inv H. discriminate.
+Qed.
+
+(* the fuel of the model's loops always suffices: no event ever yields OFuel *)
+Lemma step_no_fuel s ev : snd (step s ev) <> OFuel.
+Proof.
+  destruct ev; cbn [step]; try (cbn; discriminate).
+  - unfold do_read. destruct (read_loop _ _ _ _) as [s1 r] eqn:L.
+    apply read_loop_no_fuel in L; [|unfold measure; destruct (closed s); lia].
+    destruct r; cbn; try discriminate; [|congruence].
+    unfold raise_after_shutdown. destruct (shutdown false s1). cbn. discriminate.
+  - unfold do_write, raise_after_shutdown. destruct (closed s).
+    + destruct (shutdown _ _). cbn. discriminate.
+    + destruct (send_all _ _) as [s1 e]. destruct e; [destruct (shutdown _ _)|]; cbn; discriminate.
+  - unfold do_close, close_forgive, raise_after_shutdown. destruct (closed s); [cbn; discriminate|].
+    destruct (_ =? 0); [|cbn; discriminate].
+    destruct (send_rec _ _) as [s2 e2]. destruct e2; [destruct (shutdown _ _); cbn; destruct o; discriminate|].
+    destruct (csock s2).
+    + destruct (shutdown true s2) as [s3 e3]. destruct e3; [destruct (shutdown _ _); cbn; destruct o; discriminate|cbn; discriminate].
+    + destruct (close_wait _ _) as [s3 r3] eqn:W. apply close_wait_no_fuel in W; [|lia].
+      destruct r3 as [[l d]|x| |]; try (cbn; discriminate); [| |congruence].
+      * destruct (d =? 0).
+        -- destruct (shutdown true s3) as [s4 e4]. destruct e4; [destruct (shutdown _ _); cbn; destruct o; discriminate|cbn; discriminate].
+        -- destruct (shutdown false s3). cbn. discriminate.
+      * destruct x; try (destruct (shutdown false s3); cbn; discriminate);
+          (destruct (shutdown true s3); cbn; destruct o; discriminate).
+  - unfold do_hs_start, raise_after_shutdown. destruct (negb _); [destruct (shutdown _ _)|]; cbn; discriminate.
+  - pose proof (do_hs_spec h s) as K. destruct (do_hs h s) as [s' o] eqn:E. cbn. clear K.
+    unfold do_hs in E. destruct (negb (hs s)); [inv E; discriminate|].
+    assert (forall x t t' o', hs_wrapper x t = (t', o') -> o' <> OFuel) as W.
+    { intros x t t' o' X. apply hs_wrapper_spec in X. destruct X as (_ & _ & (y & ->)). discriminate. }
+    destruct h.
+    + destruct (get_msg CHs s) as [s1 r] eqn:G. unfold get_msg in G. apply get_msg_q_len in G. destruct G as (NF & _).
+      destruct r; try (inv E; discriminate); [eapply W; eauto|congruence].
+    + destruct (send_rec _ _) as [s1 e]. destruct e; [|inv E; discriminate].
+      destruct (ct =? 22); [|eapply W; eauto].
+      unfold look_for_alert, recv_item in E. destruct (inq s1).
+      * unfold no_input in E. destruct (negb _); [eapply W; exact E|]. destruct (rxe s1); [inv E; discriminate|eapply W; exact E|eapply W; exact E].
+      * destruct (shutdown false _) as [s2 e2]. destruct e2; [eapply W; eauto|].
+        destruct i; inv E; discriminate.
+    + inv E; discriminate.
+    + destruct (flush s) as [s1 e]. destruct e; [eapply W; eauto|inv E; discriminate].
+    + inv E; discriminate.
+    + inv E; discriminate.
+  - destruct (_ && _); cbn; discriminate.
+  - destruct (rx_open s); cbn; discriminate.
+  - destruct (rx_open s); cbn; discriminate.
+  - destruct (txf s); cbn; discriminate.
+Qed.
+
 (* ---- statements that are false of the faithful model: witnesses --------------------------- *)
 (* Full statement of "a transport fault at any step of a handshake is contained". *)
 Definition transport_fault_contained_full : Prop :=
@@ -1046,14 +1195,15 @@ Lemma write_after_close_witness :
   os = [ONone; ORet []; OExc XClosed] /\ closed s' = true /\ sess s' = Some false.
 Proof. vm_compute. repeat split. Qed.
 
+Definition est_cn : st :=
+  mkst false false 1 (Some true) false true false false 16384 true false [] [] [IAlert 1 0] RxOpen None [].
+
 Lemma after_close_notify_not_full : ~ after_close_notify_full.
 Proof.
   intros F.
-  pose (s := fst (run est0 [NIn (IAlert 1 0)])).
-  specialize (F s 1 [] None 1). vm_compute in F.
-  specialize (F eq_refl eq_refl eq_refl eq_refl eq_refl eq_refl [UWrite [119]]).
-  assert (Forall data_event [UWrite [119]]) as D by (constructor; [exact I|constructor]).
-  specialize (F D). discriminate F.
+  assert (sess (fst (run est_cn [URead None 1; UWrite [119]])) = sess est_cn) as E.
+  { apply (F est_cn 1 [] None 1); try reflexivity. constructor; [exact I|constructor]. }
+  vm_compute in E. discriminate E.
 Qed.
 
 (* example states meeting the hypotheses used above *)
